@@ -275,6 +275,11 @@ func provenance(b *harness.B, c *chaingen.Chain, s sample) {
 			b.Violate("C09/provenance/"+name, fmt.Sprintf("the same block obtained as %s gives a different result: %s", name, d), wit)
 		}
 	}
+	// proofs kept up to date by a client (transaction pool) across an intervening block: a copy obtained from the
+	// multiproof wire form must behave like a copy decoded transaction by transaction
+	if s.valid && s.b.V2 != nil && len(s.b.Transactions) == 0 {
+		maintained(b, c, s, wit)
+	}
 	// stepwise == blockwise (for blocks that pass the envelope checks)
 	if consensus.ValidateOrphan(s.cs, s.b) == nil {
 		ms := consensus.NewMidState(s.cs)
@@ -307,6 +312,88 @@ func provenance(b *harness.B, c *chaingen.Chain, s sample) {
 		if blockTxnFail && stepErr == nil {
 			b.Violate("C09/stepwise/block-rejected-on-a-transaction-that-passes-stepwise", "ValidateBlock rejects a transaction that passes one-by-one validation: "+blockErr.Error(), wit)
 		}
+	}
+}
+
+// maintained: an empty block is mined on the sample's parent state; the element proofs of two copies of the sample
+// block (plain binary copy, multiproof-decoded copy) are updated with that block's ApplyUpdate, element by element
+// in transaction order, exactly as a pool would; the copies must stay identical and, re-sealed on the new tip,
+// receive the same verdict.
+func maintained(b *harness.B, c *chaingen.Chain, s sample, wit map[string]any) {
+	eb := types.Block{ParentID: s.cs.Index.ID, Timestamp: s.b.Timestamp, V2: &types.V2BlockData{}}
+	if c.Seal(s.cs, &eb, types.VoidAddress, 1, nil) != nil {
+		return
+	}
+	ebs := consensus.V1BlockSupplement{}
+	if consensus.ValidateBlock(s.cs, eb, ebs) != nil {
+		return
+	}
+	cs1, au := consensus.ApplyBlock(s.cs, eb, ebs, c.AncestorTimestamp(s.cs.Index.Height))
+	plain := chaingen.CloneBlock(s.b)
+	var multi types.Block
+	d := types.NewBufDecoder(enc(types.V2Block(s.b)))
+	(*types.V2Block)(&multi).DecodeFrom(d)
+	if d.Err() != nil {
+		return // reported by the provenance variant
+	}
+	update := func(blk *types.Block) {
+		up := func(se *types.StateElement) {
+			if se.LeafIndex != types.UnassignedLeafIndex {
+				au.UpdateElementProof(se)
+			}
+		}
+		for i := range blk.V2.Transactions {
+			t := &blk.V2.Transactions[i]
+			for k := range t.SiacoinInputs {
+				up(&t.SiacoinInputs[k].Parent.StateElement)
+			}
+			for k := range t.SiafundInputs {
+				up(&t.SiafundInputs[k].Parent.StateElement)
+			}
+			for k := range t.FileContractRevisions {
+				up(&t.FileContractRevisions[k].Parent.StateElement)
+			}
+			for k := range t.FileContractResolutions {
+				up(&t.FileContractResolutions[k].Parent.StateElement)
+				if sp, ok := t.FileContractResolutions[k].Resolution.(*types.V2StorageProof); ok {
+					up(&sp.ProofIndex.StateElement)
+				}
+			}
+		}
+	}
+	update(&plain)
+	update(&multi)
+	b.Eval(1)
+	b.Count("maintained_proof_comparisons", 1)
+	nProofs := 0
+	for i := range plain.V2.Transactions {
+		nProofs += len(plain.V2.Transactions[i].SiacoinInputs) + len(plain.V2.Transactions[i].SiafundInputs) + len(plain.V2.Transactions[i].FileContractRevisions) + len(plain.V2.Transactions[i].FileContractResolutions)
+		if !bytes.Equal(enc(plain.V2.Transactions[i]), enc(multi.V2.Transactions[i])) {
+			b.Violate("C09/provenance/multiproof-decoded/maintained-proofs-differ", fmt.Sprintf("after updating every element proof with the next block's ApplyUpdate, transaction %d of the multiproof-decoded copy differs from the plainly decoded copy", i), wit)
+			return
+		}
+	}
+	b.Distinct("maintained", min(nProofs, 6), cs1.Elements.NumLeaves&(cs1.Elements.NumLeaves-1) == 0)
+	reseal := func(blk types.Block) string {
+		blk.ParentID = cs1.Index.ID
+		if blk.Timestamp.Before(chaingen.Median(cs1)) {
+			blk.Timestamp = chaingen.Median(cs1)
+		}
+		miner := types.VoidAddress
+		if len(blk.MinerPayouts) > 0 {
+			miner = blk.MinerPayouts[0].Address
+		}
+		if c.Seal(cs1, &blk, miner, 1, nil) != nil {
+			return "<unsealed>"
+		}
+		return errStr(consensus.ValidateBlock(cs1, blk, consensus.V1BlockSupplement{}))
+	}
+	vp, vm := reseal(plain), reseal(multi)
+	if vp != vm {
+		b.Violate("C09/provenance/multiproof-decoded/maintained-verdict-differs", fmt.Sprintf("one block later, the plainly decoded copy gets %q and the multiproof-decoded copy %q", vp, vm), wit)
+	}
+	if vp == "<accepted>" {
+		b.Count("maintained_copies_accepted_one_block_later", 1)
 	}
 }
 
